@@ -679,7 +679,9 @@ class HarnessA:
         if self.ad.timed != "belt":
             return True
         st = self.ad.store
-        if len(st.items) == 0 and len(st.ready_items) == 0:
+        # an empty belt with no granted-but-unused entry reservation: only then is "free space" unambiguous
+        # (entries must be one slot apart, and each outstanding reservation is an entry about to happen)
+        if len(st.items) == 0 and len(st.ready_items) == 0 and self.n_granted("p") == 0:
             return True
         return False
 
